@@ -526,17 +526,20 @@ def gen_nn(rng, quick):
                 for _ in range(rng.choice([1, 2, 2, 3])):
                     r = rng.random()
                     kids.append(n + 5 if r < 0.04 else rng.randrange(1, n + 1))
-            lo = rng.choice([0, 0, 3, 7, 8])
-            nodes[i] = (items, hasitems, kids, lo, lo + rng.choice([0, 5, 100]))
-        add("random", nodes, 1, rng.choice([0, 7, 7, 50, 105]))
+            lo = rng.choice([0, 0, 3, 500])
+            nodes[i] = (items, hasitems, kids, lo, rng.choice([lo, lo + 100, 10 ** 7, 10 ** 7]))
+        # most probes are above every key, so that findInternal's pre-check (probe >= first key) lets the descent start
+        add("random", nodes, 1, rng.choice([0, 7, 250, 550, 10 ** 6, 10 ** 6, 10 ** 6]))
     # a chain whose every level lists the next level twice: 2^depth leaf visits from depth+1 objects
     for depth in (4, 8, 11):
         nodes = {i: (0, False, [i + 1, i + 1], 0, 1000) for i in range(1, depth + 1)}
         nodes[depth + 1] = (2, True, [], 7, 7)
         add("doubled-%d" % depth, nodes, 1)
     # find: the first-kid path ends in a leaf, the path chosen for the probe key loops
-    add("find-loop", {1: (0, False, [2, 3], 0, 1000), 2: (2, True, [], 0, 0), 3: (0, False, [3], 5, 100)}, 1)
-    add("find-badnode", {1: (0, False, [2, 3], 0, 1000), 2: (2, True, [], 0, 0), 3: (0, False, [], 5, 100)}, 1)
+    add("find-loop", {1: (0, False, [2, 3], 0, 1000), 2: (2, True, [], 0, 0), 3: (0, False, [3], 5, 10 ** 7)}, 1, 10 ** 6)
+    add("find-loop-2", {1: (0, False, [2, 3], 0, 1000), 2: (2, True, [], 0, 0), 3: (0, False, [4], 5, 10 ** 7), 4: (0, False, [3], 5, 10 ** 7)}, 1, 10 ** 6)
+    add("find-badnode", {1: (0, False, [2, 3], 0, 1000), 2: (2, True, [], 0, 0), 3: (0, False, [], 5, 10 ** 7)}, 1, 10 ** 6)
+    add("find-minus1", {1: (0, False, [2, 3], 0, 1000), 2: (2, True, [], 0, 0), 3: (0, False, [2], 5, 10 ** 7)}, 1, 10 ** 6)
     add("self-loop", {1: (0, False, [1], 0, 1000)}, 1)
     k = 60 if quick else 600
     nodes = {i: (0, False, [i + 1], 0, 100000) for i in range(1, k + 1)}
@@ -605,8 +608,8 @@ def nn_pdf(c, names=False):
             dd[ik] = arr
         if kids:
             dd[b"Kids"] = [Ref(base + k) for k in kids]
-        if i != c["root"]:
-            dd[b"Limits"] = [Str(b"k%08d" % lo), Str(b"k%08d" % hi)] if names else [lo, hi]
+        # the root gets /Limits too: it can be a kid of another node in a hostile graph, and the search reads kids' /Limits
+        dd[b"Limits"] = [Str(b"k%08d" % lo), Str(b"k%08d" % hi)] if names else [lo, hi]
         d.objects[base + i] = dd
     if names:
         d.objects[1][b"Names"] = D(EmbeddedFiles=Ref(base + c["root"]))
